@@ -174,6 +174,14 @@ func (s *Sched) Abandon() {
 	}
 }
 
+// Free tells whether the name can be used for a new proc
+func (s *Sched) Free(name string) bool {
+	s.mu.Lock()
+	defer s.mu.Unlock()
+	p := s.procs[name]
+	return p == nil || p.state == StFinished
+}
+
 // Forget removes a finished proc
 func (s *Sched) Forget(name string) {
 	s.mu.Lock()
@@ -185,7 +193,7 @@ func (s *Sched) Forget(name string) {
 
 var blockedStates = []string{
 	"chan receive", "chan send", "select", "sync.Mutex.Lock", "sync.RWMutex.RLock",
-	"sync.RWMutex.Lock", "semacquire", "sync.Cond.Wait", "sync.WaitGroup.Wait", "IO wait",
+	"sync.RWMutex.Lock", "sync.Cond.Wait", "IO wait",
 }
 
 func goroutineStates() map[int64]string {
